@@ -15,6 +15,36 @@ structure St where
   c : Cfg
   s : State
   nkeys : Nat
+  strict : Bool := false                       -- the transcript carries acq / clock lines (conch v2)
+  evs : List (Nat × List Acc) := []            -- per thread: acquisitions / clock reads seen since its last step line
+  pre : List (Nat × List Acc) := []            -- per thread: lock-free prefix events still expected after a `call`
+  ttlPending : List Nat := []                  -- threads whose `ttlAdvance => nonempty` awaits its `ttlMap` line
+
+def getL (l : List (Nat × List Acc)) (t : Nat) : List Acc := ((l.find? (·.1 == t)).map (·.2)).getD []
+def setL (l : List (Nat × List Acc)) (t : Nat) (v : List Acc) : List (Nat × List Acc) :=
+  (t, v) :: l.filter (·.1 != t)
+
+def showAcc : Acc → String
+  | .shard i w => s!"shard{i}:{if w then "w" else "r"}"
+  | .maint i tr => s!"maint{i}:{if tr then "tl" else "l"}"
+  | .batch => "batch"
+  | .clock => "clock"
+def showAccs (l : List Acc) : String := "[" ++ ",".intercalate (l.map showAcc) ++ "]"
+
+/-- `shard3` / `maint0` / `batch` + kind → event; `none` = an acquisition the model never performs -/
+def parseAcc (role kind : String) : Option Acc :=
+  if role.startsWith "shard" then
+    match (role.drop 5).toNat?, kind with
+    | some i, "r" => some (.shard i false)
+    | some i, "w" => some (.shard i true)
+    | _, _ => none
+  else if role.startsWith "maint" then
+    match (role.drop 5).toNat?, kind with
+    | some i, "l" => some (.maint i false)
+    | some i, "tl" => some (.maint i true)
+    | _, _ => none
+  else if role = "batch" && kind = "l" then some .batch
+  else none
 
 def kv (ws : List String) (key : String) : Option String :=
   (ws.find? (fun w => w.startsWith (key ++ "="))).map (fun w => (w.drop (key.length + 1)).toString)
@@ -27,7 +57,12 @@ def init (ws : List String) : Except String St :=
   | some n, some sh, some cap, some nk =>
     let capN := if cap = "inf" then some u64max else cap.toNat?
     match capN with
-    | some cp => .ok { c := { nThreads := n, nShards := sh, capacity := cp }, s := Fv.Cache.Conc.init, nkeys := nk }
+    | some cp =>
+      let ttl := ((kv ws "ttl").bind String.toNat?).getD 0
+      let tti := ((kv ws "tti").bind String.toNat?).getD 0
+      let t0 := ((kv ws "t0").bind String.toNat?).getD 1000000000
+      .ok { c := { nThreads := n, nShards := sh, capacity := cp, ttl := ttl, tti := tti, track := kv ws "track" != some "0" },
+            s := { Fv.Cache.Conc.init with now := t0 }, nkeys := nk, strict := (kv ws "track").isSome }
     | none => .error "bad cap="
   | _, _, _, _ => .error "missing threads= / shards= / cap= / nkeys="
 
@@ -46,7 +81,9 @@ def retOf (tok : String) : Option (Option Nat) :=
 
 def parseOp : List String → Option Op
   | ["get", k] => k.toNat?.map Op.get
-  | ["insert", k, v, c] => do some (.insert (← k.toNat?) (← v.toNat?) (← c.toNat?))
+  | ["peek", k] => k.toNat?.map Op.peek
+  | ["insert", k, v, c] => do some (.insert (← k.toNat?) (← v.toNat?) (← c.toNat?) none)
+  | ["insertttl", k, v, c, d] => do some (.insert (← k.toNat?) (← v.toNat?) (← c.toNat?) (some (← d.toNat?)))
   | ["remove", k] => k.toNat?.map Op.remove
   | ["compute", k, d] => do some (.compute (← k.toNat?) (← d.toNat?))
   | ["trycompute", k, d] => do some (.tryCompute (← k.toNat?) (← d.toNat?))
@@ -62,6 +99,16 @@ def outcome (res : List String) : List String :=
 /-- run one model step and check outcome, return value and observation -/
 def doStep (st : St) (t : Nat) (l : Label) (res : List String) (tag : String)
     (check : State → State → Bool := fun _ _ => true) : Except String (St × List String) :=
+  let isCall := match l with | .call _ => true | _ => false
+  let expected := if isCall then [] else getL st.pre t ++ footprint st.c st.s t l
+  let seen := getL st.evs t
+  let fpOk := !st.strict || seen == expected ||
+    (match footprintAlt st.c st.s t l with | some a => seen == getL st.pre t ++ a | none => false)
+  if !fpOk then
+    .error s!"model=footprint {showAccs expected} impl-footprint={showAccs seen} pc={showPC (st.s.pc t)}"
+  else
+  let st := if isCall then { st with pre := setL st.pre t (footprint st.c st.s t l) }
+            else { st with pre := setL st.pre t [], evs := setL st.evs t [] }
   match step st.c st.s t l with
   | none => .error s!"model=step-not-enabled pc={showPC (st.s.pc t)}"
   | some s' =>
@@ -97,9 +144,23 @@ def step (st : St) (op res : List String) : Except String (St × List String) :=
   match op with
   | "P" :: _ => .ok (st, [])
   | "S" :: _ => .ok (st, [])
+  | [ts, "acq", role, kind] =>
+    match ts.toNat?, parseAcc role kind with
+    | some t, some a => .ok ({ st with evs := setL st.evs t (getL st.evs t ++ [a]) }, [s!"acq-{showAcc a |>.takeWhile (fun ch => !ch.isDigit && ch != ':')}"])
+    | some _, none => .error s!"model=never-takes-this-lock role={role} kind={kind}"
+    | none, _ => .error "bad-op"
+  | [ts, "clock"] =>
+    match ts.toNat? with
+    | some t => .ok ({ st with evs := setL st.evs t (getL st.evs t ++ [.clock]) }, ["clock-read"])
+    | none => .error "bad-op"
+  | [ts, "advance", d] =>
+    match ts.toNat?, d.toNat? with
+    | some t, some d => doStep st t (.advance d) res "clock-advance"
+    | _, _ => .error "bad-op"
   | ["X", status] =>
     if status = "ok" then
-      if decide (Quiescent st.c st.s) then
+      if st.evs.any (fun p => !p.2.isEmpty) then .error "model=acquisitions-or-clock-reads-outside-any-step"
+      else if decide (Quiescent st.c st.s) then
         .ok (st, ["end-ok", if st.s.dirty then "end-accounting-drift-predicted" else "end-accounting-clean"])
       else .error "model=not-quiescent-at-end"
     else .error s!"model=every-step-is-non-blocking impl={status}"
@@ -114,7 +175,10 @@ def step (st : St) (op res : List String) : Except String (St × List String) :=
       let out := outcome res
       let pcIs (f : PC → Bool) : State → State → Bool := fun _ s' => f (s'.pc t)
       match lab, out with
-      | "read", ["none"] => doStep st t .read res "read-miss" (pcIs (· == .done none))
+      | "read", ["none"] =>
+        doStep st t .read res
+          (match st.s.pc t with | .rd k _ => (if (st.s.map k).isSome then "read-expired" else "read-miss") | _ => "read-miss")
+          (pcIs (· == .done none))
       | "read", ["some", v] => doStep st t .read res "read-hit" (pcIs (fun p => some p == v.toNat?.map (fun x => PC.done (some x))))
       | "insMap", ["new"] => doStep st t .insMap res "insert-fresh" (pcIs (fun p => match p with | .insEv _ _ => true | _ => false))
       | "insMap", ["old"] => doStep st t .insMap res "insert-overwrite" (pcIs (fun p => match p with | .insSub _ _ _ => true | _ => false))
@@ -146,8 +210,39 @@ def step (st : St) (op res : List String) : Except String (St × List String) :=
       | "evSub", _ => doStep st t .evSub res "evict-sub-cost"
       | "evNote", _ => doStep st t (.evNote true) res "evict-notify"
       | "ttlAdvance", ["[]"] => doStep st t (.ttlAdvance []) res "ttl-none"
-      | "capLoad", ["over"] => doStep st t .capLoad res "capacity-over" (pcIs (fun p => match p with | .mCapEvict _ _ => true | _ => false))
-      | "capLoad", ["under"] => doStep st t .capLoad res "capacity-under" (pcIs (fun p => match p with | .mUnlock _ => true | _ => false))
+      | "ttlAdvance", ["nonempty"] => .ok ({ st with ttlPending := t :: st.ttlPending }, ["ttl-due"])
+      | "ttlMap", [ks] =>
+        -- the expiry set of the timer wheel is an oracle: the keys the implementation removed (plus a phantom)
+        match Fv.Driver.natList? ks with
+        | some ks =>
+          if !st.ttlPending.contains t then .error "model=no-ttl-due"
+          else
+            match Fv.Cache.Conc.step st.c st.s t (.ttlAdvance (ks ++ [1000003])) with
+            | none => .error s!"model=step-not-enabled pc={showPC (st.s.pc t)}"
+            | some s1 =>
+              let sh := match s1.pc t with | .mTtlMap m _ => m.sh | _ => 0
+              let removed := (removeKeys st.c.nShards sh s1.map (ks ++ [1000003])).2.map (·.1)
+              if removed != ks then .error s!"model=[ttl-removes {Fv.Driver.showNatList removed}]"
+              else doStep { st with s := s1, ttlPending := st.ttlPending.filter (· != t) } t (.ttlMap true) res
+                     (if ks.isEmpty then "ttl-map-nothing" else "ttl-map-removes")
+        | none => .error "bad-op"
+      | "ttiMap", [ks] =>
+        match Fv.Driver.natList? ks with
+        | some ks =>
+          let sh := match st.s.pc t with | .mTti m => m.sh | _ => 0
+          let removed := if st.c.tti = 0 then [] else (removeKeys st.c.nShards sh st.s.map (expiredOf st.c st.s ks)).2.map (·.1)
+          if removed != ks then .error s!"model=[tti-removes {Fv.Driver.showNatList removed}]"
+          else doStep st t (.ttiMap ks true) res (if st.c.tti = 0 then "tti-off" else if ks.isEmpty then "tti-nothing" else "tti-removes")
+        | none => .error "bad-op"
+      | "capLoad", o =>
+        -- transcripts of conch v1 have no `ttiMap` line: with TTI off that step is a no-op, take it silently
+        let st := match st.s.pc t, st.strict, st.c.tti with
+          | .mTti _, false, 0 => (match Fv.Cache.Conc.step st.c st.s t (.ttiMap [] true) with | some s1 => { st with s := s1 } | none => st)
+          | _, _, _ => st
+        match o with
+        | ["over"] => doStep st t .capLoad res "capacity-over" (fun _ s' => match s'.pc t with | .mCapEvict _ _ => true | _ => false)
+        | ["under"] => doStep st t .capLoad res "capacity-under" (fun _ s' => match s'.pc t with | .mUnlock _ => true | _ => false)
+        | _ => .error "bad-op"
       | "capMap", _ =>
         doStep st t (.capMap true) res
           (match st.s.pc t with
